@@ -32,7 +32,9 @@ from windpyutils import files as wf
 from checks.c12 import LineFileSpec, VARIANTS
 
 ALPHA = ["a", ",", "\t", '"', " ", "é", "\\", "'"]
-INTS = [0, -1, 7, 10 ** 20]
+INTS = [0, -1, 7, 2 ** 53 + 1, 10 ** 20 + 1]      # the last two are not representable as floats
+# JSON "any strings": characters a JSON writer may or may not escape (lone surrogate, Unicode line separators, NUL, DEL)
+JSON_SPECIAL = ["\ud83d", "a\udcffb", "\u2028", "\u2029", "\x85", "\x00", "\x7f", "\U0001f600"]
 FLOATS = [0.0, -0.0, 1.5, 0.1, 1e-320, 1e308]
 TYPES = {"str": str, "int": int, "float": float, "any": object}
 BASES = {"json": "JsonRecord", "csv": "CSVRecord", "tsv": "TSVRecord"}
@@ -297,7 +299,7 @@ def _rt_task(arg):
     elif kind == "json-leaves":
         rt = RoundTrip(r, "json", ["any"], wd)
         fv = field_values(tier)["full1"]
-        for v in list(fv["str"]) + INTS + FLOATS + [True, False, None]:
+        for v in list(fv["str"]) + JSON_SPECIAL + INTS + FLOATS + [True, False, None]:
             rt.one((v,))
         name = "roundtrip/json/any-leaf"
     elif kind == "json-nest":
